@@ -47,8 +47,16 @@ type compiler struct {
 	pending exitBlockStatment
 }
 
-// execution is the identity of one Template.Exec.
-type execution struct{ _ byte }
+// execution is the identity of one Template.Exec. It counts the blocks of
+// its helpers that are running: a block that somebody has kept and replays
+// by hand (BlockWith of a helper context of an earlier call) does not know
+// how deep the call that replays it is nested, and one that replays itself
+// that way is only seen here.
+type execution struct{ blocks atomic.Int32 }
+
+// maxBlocksRunning bounds the blocks of one execution that run at a time:
+// nested ones, and those that other executions replay at that moment.
+const maxBlocksRunning = 10000
 
 // maxCallDepth is how deep the blocks of helpers, the calls of template
 // functions and the partials of one rendering may be nested while it runs.
